@@ -1,4 +1,5 @@
-import Mathlib.Data.Fintype.Card
+import Mathlib.Data.Fintype.EquivFin
+import Mathlib.Tactic.Ring
 /-! The heap-free part of C15: the hash-table probe sequence `p ↦ (5p+1) mod 2^k` visits every
     slot exactly once per `2^k` steps (Hull–Dobell for a power-of-two modulus).  Everything is
     stated over plain `Nat`: `X n` is the n-fold iterate from 0 without reduction, and the results
@@ -29,10 +30,7 @@ theorem X_add (a b : Nat) : X (a + b) = 5 ^ b * X a + X b := by
 /-- doubling: `X (2m) = X m * (5^m + 1)`, and `5^m + 1 = 2 * odd` -/
 theorem X_double (m : Nat) : X (2 * m) = X m * (2 * X m + 1) * 2 := by
   rw [Nat.two_mul, X_add, ← four_X m]
-  generalize X m = x
-  rw [Nat.add_mul, Nat.mul_add, Nat.add_mul, Nat.mul_assoc 4 x x]
-  generalize x * x = y
-  omega
+  ring
 
 theorem X_odd (m : Nat) : X (2 * m + 1) % 2 = 1 := by
   rw [X_succ, X_double]; omega
@@ -59,7 +57,7 @@ theorem X_dvd (k n : Nat) : 2 ^ k ∣ X n → 2 ^ k ∣ n := by
       exact Nat.mul_dvd_mul_right h3 2
     · exfalso
       have h2 : 2 ∣ X (2 * m + 1) :=
-        Nat.dvd_trans (Dvd.intro_left (2 ^ k) (Nat.pow_succ ..).symm) h
+        Nat.dvd_trans ⟨2 ^ k, by rw [Nat.pow_succ, Nat.mul_comm]⟩ h
       have := X_odd m
       omega
 
@@ -112,10 +110,8 @@ theorem X_surj_mod (k p : Nat) (hp : p < 2 ^ k) : ∃ i, i < 2 ^ k ∧ X i % 2 ^
 theorem X_add_period (k i : Nat) : X (i + 2 ^ k) % 2 ^ k = X i % 2 ^ k := by
   obtain ⟨c, hc⟩ := dvd_X k (2 ^ k) (Nat.dvd_refl _)
   have e : X (i + 2 ^ k) = X i + 2 ^ k * (c * (4 * X i + 1)) := by
-    rw [X_add, ← four_X (2 ^ k), ← Nat.mul_assoc, ← hc, Nat.add_mul, Nat.mul_add,
-      Nat.mul_assoc 4]
-    generalize X (2 ^ k) * X i = z
-    omega
+    rw [X_add, ← four_X (2 ^ k), ← Nat.mul_assoc, ← hc]
+    ring
   rw [e, Nat.add_mul_mod_self_left]
 
 /-- one step of the real probe function on residues -/
